@@ -111,6 +111,6 @@ func FamDataMap(thorough bool) Family {
 	add("many keys|insert 200, delete odd, fold", "", "\t\tm := map[int32]int32{}\n\t\tfor i := int32(0); i < 200; i++ {\n\t\t\tm[i*7%200] = i\n\t\t}\n\t\tprintln(len(m))\n\t\tfor i := int32(1); i < 200; i += 2 {\n\t\t\tdelete(m, i)\n\t\t}\n\t\ts, x := int64(0), int32(0)\n\t\tfor k, v := range m {\n\t\t\ts += int64(k)*1000 + int64(v)\n\t\t\tx ^= k\n\t\t}\n\t\tprintln(len(m), s, x)")
 	add("string keys|equal content, different origin", "", "\t\tm := map[string]int32{}\n\t\ta := \"k\"\n\t\tb := string([]byte{107})\n\t\tc := \"xk\"[1:]\n\t\tm[a] = 1\n\t\tm[b] += 1\n\t\tm[c] += 1\n\t\tprintln(len(m), m[\"k\"])")
 	add("float keys|+0 and -0, NaN", "", "\t\tm := map[float64]int32{}\n\t\tz := 0.0\n\t\tm[z] = 1\n\t\tm[-z] = 2\n\t\tprintln(len(m), m[0])\n\t\tnan := z / z\n\t\tm[nan] = 3\n\t\tm[nan] = 4\n\t\t_, ok := m[nan]\n\t\tprintln(len(m), ok)")
-	add("range|delete every visited key", "", "\t\tm := map[int32]int32{1: 1, 2: 2, 3: 3}\n\t\tn := 0\n\t\tfor k := range m {\n\t\t\tdelete(m, k)\n\t\t\tn++\n\t\t}\n\t\tprintln(n, len(m))")
+	add("range|delete every visited key", "", "\t\tm := map[int32]int32{1: 1, 2: 2, 3: 3}\n\t\tn := 0\n\t\tfor k, v := range m {\n\t\t\tdelete(m, k)\n\t\t\tn += int(v) * 0 + 1\n\t\t}\n\t\tprintln(n, len(m))")
 	return f
 }
